@@ -165,6 +165,30 @@ def run(ctx):
         run.finding(Finding(R1, ADV, "limit is not applied with take(limit)", site=f.loc()))
     rev = [b for b, t in f.calls() if (t.get("f") or "").endswith("::reverse")]
     held = len(rev) == 1
+    if held:
+        # the reverse() is reached only through the `Desc` arm of a switch on a RetrieveTxQuerySortOrder value
+        so = db.adts.get(c.LW + "api_impl::types::RetrieveTxQuerySortOrder")
+        desc = [v["discr"] for v in (so["variants"] if so else []) if v["name"] == "Desc"]
+        arm_edges = set()
+        for b, bb in enumerate(f.bbs):
+            t = bb["t"]
+            if t["k"] != "sw" or not desc:
+                continue
+            p = vf.op_place(t["o"])
+            if p is None:
+                continue
+            isdisc = False
+            for d in f.defs().get(p[0], []):
+                if d[0] == "a" and d[3]["r"]["k"] == "disc":
+                    q = d[3]["r"]["p"]
+                    base_ty = f.locals[q[0]]["ty"]
+                    if "RetrieveTxQuerySortOrder" in base_ty and not any(isinstance(e, dict) for e in q[1]):
+                        isdisc = True
+            if isdisc:
+                for v, tb in t["t"]:
+                    if v == desc[0]:
+                        arm_edges.add((b, tb))
+        held = bool(arm_edges) and cfg.must_pass(f, arm_edges, set(rev))[0]
     run.instance(R1, {"criterion": "sort_order", "obligation": "Desc => reverse()"}, held=held)
     if not held:
         run.finding(Finding(R1, ADV, "sort_order Desc no longer reverses", site=f.loc()))
